@@ -195,6 +195,20 @@ func c11Ops() []c11Op {
 			}
 			return hashFrame(agg, false) ^ acc*3
 		}},
+		{"Filter(pass-through clauses: And(Null(), f), Or(And(Null(), f), g))", func(e *c11Env, f qframe.QFrame, _ func()) uint64 {
+			f1 := qframe.Filter{Column: col(e, model.KInt, 0), Comparator: ">", Arg: 0}
+			f2 := qframe.Filter{Column: col(e, model.KFloat, 0), Comparator: "<", Arg: -20.0}
+			a := f.Filter(qframe.And(qframe.Null(), f1))
+			b := f.Filter(qframe.Or(qframe.And(qframe.Null(), f1, f2), qframe.And(qframe.Or(qframe.Null()), f2)))
+			return hashFrame(a, true) ^ hashFrame(b, true)*3
+		}},
+		{"GroupBy/Distinct on a string key with nulls not equal (the other Null setting of the same column)", func(e *c11Env, f qframe.QFrame, _ func()) uint64 {
+			ks := col(e, model.KString, 0)
+			g := f.GroupBy(groupby.Columns(ks), groupby.Null(false)).Aggregate(qframe.Aggregation{Fn: "count", Column: col(e, model.KInt, 0)})
+			d := f.Distinct(groupby.Columns(ks, col(e, model.KBool, 0)), groupby.Null(false))
+			d2 := f.Distinct(groupby.Columns(ks), groupby.Null(true))
+			return hashFrame(g, false) ^ uint64(d.Len())*7919 ^ hashFrame(d2.Select(ks), false)*5
+		}},
 		{"GroupBy().Aggregate(in-place median)", func(e *c11Env, f qframe.QFrame, yield func()) uint64 {
 			// a median sorts the slice it is handed: legal, the slice is documented to be the callback's to use during the call
 			medI := func(v []int) int { yield(); sort.Ints(v); return v[len(v)/2] }
